@@ -114,6 +114,10 @@ type FSM struct {
 	latestTerm  atomic.Uint64
 	// latestConfig is the latest server configuration we've seen
 	latestConfig atomic.Pointer[ConfigurationValue]
+	// latestLock serializes ApplyBatch and witnessSnapshot, the two writers
+	// of the latest index, term and configuration (in memory and in bolt)
+	// while the FSM is running. It must be taken before l.
+	latestLock sync.Mutex
 
 	l           sync.RWMutex
 	path        string
@@ -442,8 +446,19 @@ func (f *FSM) persistDesiredSuffrage(lnconfig *LocalNodeConfigValue) error {
 }
 
 func (f *FSM) witnessSnapshot(metadata *raft.SnapshotMeta) error {
+	f.latestLock.Lock()
+	defer f.latestLock.Unlock()
+
 	f.l.RLock()
 	defer f.l.RUnlock()
+
+	// Raft persists a snapshot concurrently with the application of later
+	// logs: by the time we get here, the FSM may be ahead of the index the
+	// snapshot was taken at. Only ever fastforward; never move the index,
+	// term, and configuration backwards.
+	if metadata.Index < f.latestIndex.Load() {
+		return nil
+	}
 
 	err := writeSnapshotMetaToDB(metadata, f.db)
 	if err != nil {
@@ -793,6 +808,9 @@ func (f *FSM) ApplyBatch(logs []*raft.Log) []any {
 			panic(fmt.Sprintf("got unexpected log type: %d", l.Type))
 		}
 	}
+
+	f.latestLock.Lock()
+	defer f.latestLock.Unlock()
 
 	// Only advance latest pointer if this log has a higher index value than
 	// what we have seen in the past.
